@@ -2,6 +2,7 @@ mod comp;
 mod core;
 mod proj;
 
+mod c01;
 mod c0235;
 mod c04;
 mod c06;
@@ -21,6 +22,7 @@ mod c16;
 mod c17;
 mod c18;
 mod c19;
+mod c20;
 mod gen;
 mod iv;
 
@@ -43,6 +45,10 @@ fn main() {
     if prop == "C08-worker" {
         comp::install_panic_hook();
         c08::worker(&args[2..]);
+    }
+    if prop == "C20-child" {
+        comp::install_panic_hook();
+        c20::child(&args[2..]);
     }
     if prop == "C08-one" {
         comp::install_panic_hook();
@@ -101,6 +107,20 @@ fn main() {
         }
         std::process::exit(0);
     }
+    if prop == "C01-one" {
+        let seed: u64 = args[2].parse().unwrap();
+        let idx: u64 = args[3].parse().unwrap();
+        c01::debug_one(seed, idx, args.get(4).map_or(false, |a| a == "shrink"));
+        std::process::exit(0);
+    }
+    if prop == "C01-legal" {
+        c01::debug_legal(args[2].parse().unwrap(), args[3].parse().unwrap());
+        std::process::exit(0);
+    }
+    if prop == "C01-file" {
+        c01::debug_file(&args[2], args.get(3).and_then(|a| a.parse().ok()).unwrap_or(0), args.get(4).is_some());
+        std::process::exit(0);
+    }
     if prop == "C08-show" {
         let corpus = c08::load_corpus();
         let seed: u64 = args[2].parse().unwrap();
@@ -147,6 +167,17 @@ fn main() {
     }
     if prop == "setup" {
         println!("setup: harness built against /repo working tree (verif-hooks on)");
+        // warm the two side builds so that quick runs do not pay for them: the type-check workspace's dependency graph
+        // (rasn, lazy_static) and the command-line tool built from /repo
+        match c01::warm() {
+            Ok(()) => println!("setup: type-check workspace ready ({})", c01::ws_dir().display()),
+            Err(e) => println!("setup: type-check workspace not ready (C01 will report inconclusive): {e}"),
+        }
+        let mut rep = core::Report::default();
+        match c20::cli_binary(&mut rep) {
+            Some(p) => println!("setup: CLI built ({})", p.display()),
+            None => println!("setup: CLI not built (C20 will report inconclusive): {:?}", rep.inconclusive),
+        }
         std::process::exit(0);
     }
     let mut tier = match std::env::var("VERIF_TIER").ok().as_deref() {
@@ -178,6 +209,7 @@ fn main() {
     rayon::ThreadPoolBuilder::new().stack_size(256 << 20).build_global().ok();
     let ctx = Ctx { prop: prop.clone(), tier, seed, start: std::time::Instant::now(), replay };
     let rep = match prop.as_str() {
+        "C01" => c01::run(&ctx),
         "C02" => c0235::run_c02(&ctx),
         "C03" => c0235::run_c03(&ctx),
         "C04" => c04::run(&ctx),
@@ -196,6 +228,7 @@ fn main() {
         "C17" => c17::run(&ctx),
         "C18" => c18::run(&ctx),
         "C19" => c19::run(&ctx),
+        "C20" => c20::run(&ctx),
         _ => {
             eprintln!("unknown property {prop}");
             std::process::exit(2)
